@@ -17,9 +17,10 @@
 import GeoModel.Parse
 import GeoModel.F64
 import GeoModel.Geodesy
+import GeoModel.GeodesyNum
 
 namespace Geo.Ops.C16
-open Geo Geo.P Geo.Geodesy
+open Geo Geo.P Geo.Geodesy Geo.GeodesyNum
 
 inductive Ms where
   | hav (R : Rat)
@@ -114,6 +115,28 @@ def pairClass (a b : Pt) : String :=
   else if a.x == b.x then "cls=meridian"
   else "cls=general"
 
+/-! ### regime T: the Haversine formulas of the model, evaluated with the rational engine -/
+
+/-- 12-decimal rendering of a model value (DIFF lines only) -/
+def dec12 (q : Rat) : String := ratStr (((q * 1000000000000).floor : Int) / (1000000000000 : Rat))
+
+def modelHavDistance (R : Rat) (a b : Pt) : Rat := havDistance ratTrig R (a.x, a.y) (b.x, b.y)
+def modelHavBearing (a b : Pt) : Rat := normBearing id (havBearingRaw ratTrig (a.x, a.y) (b.x, b.y))
+def modelHavDestination (R : Rat) (a : Pt) (brg d : Rat) : Pt :=
+  let r := havDestinationRaw ratTrig R (a.x, a.y) brg d
+  ⟨normalizeLongitude id r.1, r.2⟩
+
+/-- model value vs implementation value of a distance: 1e-9 relative + a micrometre -/
+def distAgrees (ms : Ms) (model impl : Rat) : Bool :=
+  rabs (model - impl) ≤ rabs model / 1000000000 + tolM ms / 1000
+
+/-- bearings agree when their difference moves the far end by less than a tenth of the tolerance -/
+def bearingAgrees (ms : Ms) (model impl dist : Rat) : Bool :=
+  rabs (wrapDeg (model - impl)) * piQ / 180 * rmin dist ms.radius ≤ tolM ms / 10
+
+/-- positions agree within a tenth of the tolerance (local metric) -/
+def ptAgrees (ms : Ms) (p q : Pt) : Bool := localSep2 p q * 100 ≤ tolDeg2 ms
+
 /-! ### C16.pair -/
 
 structure PairOut where
@@ -177,6 +200,31 @@ def propPair (ms : Ms) (a b : Pt) (r : Rat) (o : PairOut) : String :=
 def modelPair (ms : Ms) (a b : Pt) (r : Rat) (o : PairOut) : Bool × String :=
   match ms with
   | .rh => (true, "")
+  | .hav R =>
+    -- short-circuits exactly; distance, bearing and destination against the model's formulas
+    let viaCalc : Pt := ⟨0, 0⟩
+    let sc (r : Rat) : Option Pt :=
+      if a = b ∨ r = 0 ∨ r = 1 then some (pointAtRatioSC a b r (fun _ => viaCalc)) else none
+    let okAt (r : Rat) (got : XNum × XNum) : Bool :=
+      match sc r with
+      | some p => finPt? got == some p
+      | none => true
+    let scOk := okAt 0 o.m0 && okAt 1 o.m1 && okAt r o.mid
+    let md := modelHavDistance R a b
+    let dOk := nearAntipodal a b || (match fin? o.dab, fin? o.dba with
+      | some x, some y => distAgrees ms md x && distAgrees ms md y
+      | _, _ => false)
+    let inDom := !(isPolar a || isPolar b || nearAntipodal a b)
+    let mb := modelHavBearing a b
+    let bOk := !inDom || a == b || (match fin? o.bab with
+      | some x => bearingAgrees ms mb x md
+      | none => false)
+    let destOk := !inDom || (match fin? o.bab, fin? o.dab, finPt? o.dest with
+      | some brg, some d, some p => isPolar p || ptAgrees ms (modelHavDestination R a brg d) p
+      | _, _, _ => false)
+    (scOk && dOk && bOk && destOk,
+     "d " ++ dec12 md ++ " brg " ++ dec12 mb ++ (if scOk then "" else " short-circuit-mismatch") ++
+       (if destOk then "" else " destination-mismatch"))
   | _ =>
     -- `calc` is only reached when no short-circuit fires; then the model has nothing exact to say
     let viaCalc : Pt := ⟨0, 0⟩
@@ -201,7 +249,7 @@ def handlePair (inp out : List String) : String :=
     let (same, m) := modelPair ms a b r o
     let cls := "ms=" ++ ms.tag ++ " " ++ pairClass a b ++
       (if r == 0 then " r=0" else if r == 1 then " r=1" else " r=inner")
-    reply same (propPair ms a b r o) cls m ("m0 " ++ xs o.m0.1 ++ " " ++ xs o.m0.2 ++ " m1 " ++ xs o.m1.1 ++ " " ++ xs o.m1.2)
+    reply same (propPair ms a b r o) cls m ("d " ++ xs o.dab ++ " brg " ++ xs o.bab ++ " m0 " ++ xs o.m0.1 ++ " " ++ xs o.m0.2 ++ " m1 " ++ xs o.m1.1 ++ " " ++ xs o.m1.2)
   | _, _ => "ERR parse"
 
 /-! ### C16.dest -/
@@ -270,7 +318,15 @@ def handleDest (inp out : List String) : String :=
       (if isPolar a then " cls=polar-start" else if inv then " cls=inverse-checked" else " cls=wrap-only") ++
       (if brg < 0 then " brg=neg" else if brg ≥ 360 then " brg=over360" else " brg=std") ++
       (if dist < 0 then " dist=neg" else if dist == 0 then " dist=0" else " dist=pos")
-    reply true (propDest ms a brg dist o) cls
+    -- regime T (Haversine): the destination formula of the model against the implementation's point
+    let (same, m) : Bool × String := match ms, finPt? o.p with
+      | .hav R, some p =>
+        if isPolar a || isPolar p then (true, "")
+        else
+          let mp := modelHavDestination R a brg dist
+          (ptAgrees ms mp p, "p " ++ dec12 mp.x ++ " " ++ dec12 mp.y)
+      | _, _ => (true, "")
+    reply same (propDest ms a brg dist o) cls m ("p " ++ xs o.p.1 ++ " " ++ xs o.p.2)
   | _, _ => "ERR parse"
 
 /-! ### C16.len -/
